@@ -159,6 +159,7 @@ fn main() {
             m.get("seed").and_then(|s| s.parse().ok()).unwrap_or(1),
         ),
         "site-edges" => geom::site_edges(m.get("out").expect("--out")),
+        "initial-states" => hist::initial_states(m.get("out").expect("--out")),
         "tables" => geom::tables(m.get("out").expect("--out")),
         "crystal" => geom::crystal(m.get("in").expect("--in"), m.get("out").expect("--out")),
         _ => {
